@@ -243,7 +243,7 @@ def san_back(cfg, crate, rep):
 def _ip_chain(pay, bad):
     """(width, family) of one success payload of the octet converter when it is a pure conversion chain, else (None, _)"""
     import re
-    from interp import Sel, Param, MutV, OpV
+    from interp import Sel, Param, MutV, OpV, CallV
     w = fam = None
     cur = pay
     while True:
@@ -260,6 +260,8 @@ def _ip_chain(pay, bad):
             cur = cur.inner
         elif isinstance(cur, Sel) and cur.sel in ("#Ok.0", "?"):
             cur = cur.base
+        elif isinstance(cur, CallV) and cur.callee in ("std::result::Result::ok", "std::option::Option::copied", "std::option::Option::cloned") and len(cur.args) == 1:
+            cur = cur.args[0]        # `try_from(..).ok()` then `Some(x)`: still the checked conversion's success value
         elif isinstance(cur, MutV) and isinstance(cur.base, OpV) and cur.base.op == "repeat" and len(cur.ops) == 1 and cur.ops[0][0] == "call" \
                 and cur.ops[0][1] == "copy_from_slice" and len(cur.ops[0]) == 3:
             cur = cur.ops[0][2]          # a zeroed array filled with the octets (the length is copy_from_slice's own check)
